@@ -1,4 +1,5 @@
 import PK.Properties.C06
+import PK.Properties.C06Step
 #print axioms PK.C06_init
 #print axioms PK.C06_muck
 #print axioms PK.C06_consume_from_deck
@@ -8,3 +9,17 @@ import PK.Properties.C06
 #print axioms PK.C06_burn
 #print axioms PK.C06_deal_hole
 #print axioms PK.C06_replenish
+#print axioms PK.cv_frame
+#print axioms PK.consume_spec
+#print axioms PK.verify_cards_spec
+#print axioms PK.cstep_opBurn
+#print axioms PK.cstep_opDealHole
+#print axioms PK.cstep_opDealBoard
+#print axioms PK.cstep_opDraw
+#print axioms PK.cstep_opFold
+#print axioms PK.cstep_opKill
+#print axioms PK.cstep_opShow
+#print axioms PK.C06_step
+#print axioms PK.C06_reachable
+#print axioms PK.C06_exactly_once
+#print axioms PK.C06_request_distinct
